@@ -169,6 +169,9 @@ class Log(object):
 # --------------------------------------------------------------------------
 # result of one run
 
+_ADDR = __import__("re").compile(r"0x[0-9a-fA-F]{6,}")
+
+
 class RunResult(object):
     __slots__ = ("violations", "log", "scenario", "faults", "probes",
                  "nontrivial", "ticks", "beyond", "tape", "sweeps")
@@ -186,6 +189,9 @@ class RunResult(object):
         self.sweeps = []
 
     def viol(self, signature, detail=""):
+        # object addresses in reprs would break replay digests
+        detail = _ADDR.sub("0x?", str(detail))
+        signature = _ADDR.sub("0x?", signature)
         for s, _ in self.violations:
             if s == signature:
                 return
